@@ -26,7 +26,7 @@ RULE = (
 )
 ASSUMPTIONS = ["reference matcher spans are complete (a set of ends per start)", "rules that can match the empty sequence are excluded (the statement quantifies over non-nullable patterns)"]
 FLOORS = {"overlapping": 0.12, "adjacent": 0.15, "candidates>=2": 0.35}
-TEMPLATES = ["a", "aa", "ab", "aba", "a-or", "a-times", "ab-times", "not-b", "any-ab", "aab", "abab", "cap-ii", "cap-op", "a-cap-cap", "a-run-ax", "a-run-ax"]
+TEMPLATES = ["a", "aa", "ab", "aba", "a-or", "a-times", "ab-times", "not-b", "any-ab", "aab", "abab", "cap-ii", "cap-op", "a-cap-cap", "a-run-ax", "a-run-ax", "a-b-opt"]
 
 
 def budget(tier):
@@ -68,6 +68,7 @@ def cases(draw):
         "cap-ii": ["&i1", "&i1"],
         "cap-op": [{a[0]: ["&x1"]}, {a[0]: ["&x1"]}] if a[2] else ["&i1", "&i1"],
         "a-cap-cap": [da, "&i1", "&i1"],
+        "a-b-opt": [da, {b[0]: {"times": {"min": 0, "max": 2}}}],
         "a-run-ax": [{a[0]: {"times": {"min": 1, "max": draw(st.integers(2, 4))}}}, (a[0] + "q") if len(bodies) < 3 else bodies[2][0]],
     }[t]
     n = draw(st.integers(4, 16))
